@@ -1329,6 +1329,9 @@ func runVacuum(c *Case, id string) {
 	if is09 && c.Index%8 == 2 && c.Res.Status != "violated" {
 		c09KeepWalk(c, r)
 	}
+	if !is09 && c.Index%8 == 3 && c.Res.Status != "violated" {
+		c10EmptyFork(c, r)
+	}
 	// non-triviality
 	shared := false
 	if len(g) >= 2 && len(postNames) > 0 {
@@ -1574,6 +1577,152 @@ func c09KeepWalk(c *Case, r *Rng) {
 				fail("kept-version-broken", fmt.Sprintf("with request %d of %d failing (if a GET), the vacuum (reported: %v) left version %s, created after the cutoff, incomplete: %s", p, R, verr, name, v.Problems[0]))
 				return
 			}
+		}
+	}
+}
+
+// c10EmptyFork is a deterministic scenario for a vacuum next to an unmerged
+// fork: writer a inserts and deletes a row; writer b opens on that version and
+// inserts another row; a, which has not seen b, vacuums with a cutoff after
+// its delete and before every version's creation, so a's version becomes an
+// empty tree and stays current beside b's. A third writer merges the two
+// (both merge orders are played, hook H2) and vacuums with a cutoff after
+// everything: it shows b's row, every superseded version is gone from
+// root/merged - the empty one too - and the same vacuum again changes nothing.
+func c10EmptyFork(c *Case, r *Rng) {
+	vclockInstall()
+	st := newStore()
+	defer dropStore(st)
+	defer vclockDrop(st.Name)
+	epn := r.PickInt([]int{2, 4, 4096})
+	spec := func(store, client string) TableSpec {
+		return TableSpec{Name: tname(c, "ef"+client), Cols: "k PRIMARY KEY, a", Store: store, Client: client, Prefix: "ef", EPN: epn}
+	}
+	fail := func(sig, msg string) {
+		c.Violate("C10:empty-fork:"+sig, msg, map[string]interface{}{"create": spec(st.Name, "a").SQL()})
+	}
+	stmtErr := func(what string, err error) {
+		fail("statement-error", what+": "+err.Error())
+	}
+	nrows := r.Range(1, 3)
+	vclockSet(st.Name, 10)
+	A := OpenConn("a")
+	defer A.Close()
+	sa := spec(st.Name, "a")
+	if err := A.Create(sa); err != nil {
+		stmtErr("create a", err)
+		return
+	}
+	for i := 1; i <= nrows; i++ {
+		vclockSet(st.Name, 10+i)
+		A.SetWriteTime(i)
+		if err := A.Exec("insert into "+sa.Name+" values (?,?)", i, "x"); err != nil {
+			stmtErr("insert", err)
+			return
+		}
+	}
+	vclockSet(st.Name, 20)
+	A.SetWriteTime(5)
+	if err := A.Exec("delete from " + sa.Name); err != nil {
+		stmtErr("delete", err)
+		return
+	}
+	vclockSet(st.Name, 30)
+	B := OpenConn("b")
+	defer B.Close()
+	sb := spec(st.Name, "b")
+	if err := B.Create(sb); err != nil {
+		stmtErr("create b", err)
+		return
+	}
+	B.SetWriteTime(6)
+	if err := B.Exec("insert into "+sb.Name+" values (?,?)", 100, "y"); err != nil {
+		stmtErr("insert b", err)
+		return
+	}
+	vclockSet(st.Name, 40)
+	// cutoff second 8: after the deletes (write time 5), before every version (created at second 11 and later)
+	if res, err := A.Rows("select vacuum_error from s3db_vacuum('"+sa.Name+"', ?)", tstr(8)); err != nil || len(res) != 1 || res[0] != "NULL" {
+		fail("vacuum-error", fmt.Sprintf("vacuum by the first writer: %v %v", res, err))
+		return
+	}
+	pre := st.Snapshot()
+	base := walk.Base("ef")
+	if cur := walk.VersionNames(pre, base, "current"); len(cur) != 2 {
+		c.Count("empty_fork_scenarios_without_two_current_versions", 1)
+		return
+	}
+	c.Count("empty_fork_scenarios", 1)
+	for _, desc := range []bool{false, true} {
+		s2 := newStore()
+		s2.Restore(pre)
+		vclockSet(s2.Name, 50)
+		func() {
+			defer dropStore(s2)
+			defer vclockDrop(s2.Name)
+			ep := fs3.Endpoint(s2.Name, "m")
+			setPerm(ep, func(roots []string) []string {
+				o := append([]string(nil), roots...)
+				sort.Strings(o)
+				if desc {
+					for i, j := 0, len(o)-1; i < j; i, j = i+1, j-1 {
+						o[i], o[j] = o[j], o[i]
+					}
+				}
+				return o
+			})
+			defer setPerm(ep, nil)
+			M := OpenConn("m")
+			defer M.Close()
+			sm := spec(s2.Name, "m")
+			if err := M.Create(sm); err != nil {
+				stmtErr("create m", err)
+				return
+			}
+			rows, err := M.Rows("select * from " + sm.Name)
+			if err != nil {
+				stmtErr("select m", err)
+				return
+			}
+			want := "i:100|t:y"
+			if len(rows) != 1 || rows[0] != want {
+				// what the merge shows is C01/C02's business; the scenario just is not the one planned
+				c.Count("empty_fork_merges_with_other_rows", 1)
+				return
+			}
+			vclockSet(s2.Name, 60)
+			for pass := 1; pass <= 2; pass++ {
+				l1 := s2.Listing(base)
+				res, err := M.Rows("select vacuum_error from s3db_vacuum('"+sm.Name+"', ?)", tstr(1000))
+				if err != nil || len(res) != 1 || res[0] != "NULL" {
+					fail("vacuum-error", fmt.Sprintf("vacuum %d by the merging writer: %v %v", pass, res, err))
+					return
+				}
+				c.Count("empty_fork_vacuums", 1)
+				snap := s2.Snapshot()
+				if cur := walk.VersionNames(snap, base, "current"); len(cur) != 1 {
+					fail("current-versions", fmt.Sprintf("after the merging writer's vacuum %d there are %d current versions, want 1", pass, len(cur)))
+					return
+				}
+				if left := walk.VersionNames(snap, base, "merged"); len(left) > 0 {
+					fail("version-not-reclaimed", fmt.Sprintf("merge order descending=%v: after the merging writer's vacuum %d with a cutoff after everything (%s), %d superseded versions are still under root/merged (first: %s); the fork held an emptied version beside a one-row version", desc, pass, tstr(1000), len(left), left[0]))
+					return
+				}
+				if pass == 2 {
+					if d := firstDiff(l1, s2.Listing(base)); d != "" {
+						fail("second-vacuum-changes-bucket", "repeating the same vacuum changed the bucket listing: "+d)
+						return
+					}
+				}
+				rows, err := M.Rows("select * from " + sm.Name)
+				if err != nil || len(rows) != 1 || rows[0] != want {
+					fail("rows-after-vacuum", fmt.Sprintf("after vacuum %d the table shows %v (err %v), want [%s]", pass, rows, err, want))
+					return
+				}
+			}
+		}()
+		if c.Res.Status == "violated" {
+			return
 		}
 	}
 }
